@@ -68,51 +68,3 @@ def mk(blocked):
 
 mk(False)
 mk(True)
-
-
-@unit('mciipm+iso8583/lint-no-shared-mutable-state', props=['C06'], functions=[])
-def u_lint(E):
-    """syntactic side of instance isolation: no reader/writer/codec function stores to a class object, a module global,
-    or a mutable default; no `global` / `nonlocal`"""
-    import ast
-    for modname in ('cardutil.mciipm', 'cardutil.iso8583', 'cardutil.BitArray', 'cardutil'):
-        mod = E.program.modules[modname]
-        class_names = set(mod.classes) | {'cls'}
-        global_names = set(mod.assigns)
-        for fi in [f for f in E.program.functions.values() if f.module is mod]:
-            bad = []
-            for n in ast.walk(fi.node):
-                if isinstance(n, (ast.Global, ast.Nonlocal)):
-                    bad.append('global/nonlocal at line %d' % n.lineno)
-                if isinstance(n, ast.Attribute) and isinstance(n.ctx, (ast.Store, ast.Del)):
-                    root = n.value
-                    if isinstance(root, ast.Name) and root.id in class_names:
-                        bad.append('store to class attribute %s.%s at line %d' % (root.id, n.attr, n.lineno))
-                    if isinstance(root, ast.Attribute) and root.attr == '__class__':
-                        bad.append('store through __class__ at line %d' % n.lineno)
-                    if isinstance(root, ast.Call) and isinstance(root.func, ast.Name) and root.func.id == 'type':
-                        bad.append('store through type(self) at line %d' % n.lineno)
-                if isinstance(n, ast.Subscript) and isinstance(n.ctx, (ast.Store, ast.Del)):
-                    root = n.value
-                    while isinstance(root, (ast.Subscript, ast.Attribute)):
-                        root = root.value
-                    if isinstance(root, ast.Name) and (root.id in global_names or root.id in class_names) and root.id not in {a.arg for a in fi.node.args.args}:
-                        # writing into a module-level / class-level container
-                        locals_assigned = {t.id for s in ast.walk(fi.node) if isinstance(s, ast.Assign) for t in s.targets if isinstance(t, ast.Name)}
-                        if root.id not in locals_assigned:
-                            bad.append('store into shared container %s at line %d' % (root.id, n.lineno))
-                if isinstance(n, ast.Call) and isinstance(n.func, ast.Attribute) and n.func.attr in ('append', 'extend', 'update', 'setdefault', 'pop', 'clear', 'add'):
-                    root = n.func.value
-                    while isinstance(root, (ast.Subscript, ast.Attribute)):
-                        if isinstance(root, ast.Attribute) and isinstance(root.value, ast.Name) and root.value.id in class_names:
-                            bad.append('mutation of class-level container %s.%s at line %d' % (root.value.id, root.attr, n.lineno))
-                            break
-                        root = root.value
-                    if isinstance(root, ast.Name) and root.id in global_names:
-                        locals_assigned = {t.id for s in ast.walk(fi.node) if isinstance(s, ast.Assign) for t in s.targets if isinstance(t, ast.Name)}
-                        if root.id not in locals_assigned and root.id not in {a.arg for a in fi.node.args.args}:
-                            bad.append('mutation of module-level container %s at line %d' % (root.id, n.lineno))
-            for d in fi.node.args.defaults + [d for d in fi.node.args.kw_defaults if d is not None]:
-                if isinstance(d, (ast.List, ast.Dict, ast.Set)) or (isinstance(d, ast.Call) and isinstance(d.func, ast.Name) and d.func.id in ('list', 'dict', 'set')):
-                    bad.append('mutable default argument')
-            E.prove('lint/%s/no-shared-mutable-state%s' % (fi.qualname.split('.', 1)[1], (' (' + '; '.join(bad) + ')') if bad else ''), z3.BoolVal(not bad), 'P', 'lint')
